@@ -223,6 +223,56 @@ def wl_bloom(ctx, rng, case):
 
 # ------------------------------------------------------------------------------- count-min
 
+def wl_ondisk_big(ctx, rng, case):
+    """an on-disk Bloom filter whose array is larger than 1 MiB, CREATED by the library: the backing file, the export copy and bytes() are
+    exactly the cells followed by the footer (export_size() bytes), equal to what the C reference writer produces from the same
+    additions, and the C reader answers from the backing file like the library"""
+    import probables as P
+
+    est, rate = rng.choice([(1_000_000, 0.01), (1_500_000, 0.05), (900_000, 0.01)])
+    est += rng.randint(0, 30)
+    mk = refimpl.bloom_sizing_simple(est, rate)
+    if mk is None:
+        return
+    m, k = mk
+    keys = c06_keys(rng, rng.randint(5, 12))
+    case.desc = {"kind": "on-disk bloom > 1 MiB", "est": est, "rate": rate, "bits": m, "hashes": k}
+    sc = bl.Scratch(ctx, case)
+    try:
+        path = sc.path("big")
+        f = P.BloomFilterOnDisk(path, est, rate)
+        for kx in keys:
+            f.add(kx)
+        want_len = (m + 7) // 8 + 20
+        ctx.check(f.export_size() == want_len, "export_size() of a big on-disk filter is not cells + footer", got=f.export_size(), want=want_len)
+        copy = sc.path("copy")
+        f.export(copy)
+        wpath = sc.path("cw")
+        ans = c_ask(ctx, f"bloom_write {wpath} {est} {fpr_bits(rate)} " + " ".join(cref.hexkey(kx) for kx in keys))
+        ctx.check(ans.startswith("OK"), "C writer failed", answer=ans)
+        with open(wpath, "rb") as fh:
+            cdata = fh.read()
+        for name, pth in (("backing file", path), ("export copy", copy)):
+            with open(pth, "rb") as fh:
+                data = fh.read()
+            ctx.counters["disagreements_checked"] += 1
+            ctx.check(len(data) == want_len, f"{name} of a big on-disk filter has {len(data)} bytes, the layout requires {want_len}")
+            ctx.check(data == cdata, f"{name} of a big on-disk filter differs from the file the C reference writer produces from the same additions",
+                      first_difference=next((i for i, (x, y) in enumerate(zip(data, cdata)) if x != y), None), lengths=(len(data), len(cdata)))
+        probe = keys + ["absent-1", "absent-2"]
+        parts = c_ask(ctx, f"bloom_check {path} " + " ".join(cref.hexkey(x) for x in probe)).split()
+        ctx.check(parts[0] == "OK", "C reader could not read the backing file of a big on-disk filter", answer=" ".join(parts[:8]))
+        for key, a in zip(probe, parts[7:]):
+            ctx.check(int(a) == int(f.check(key)), "C reference reader answers differently from the library for a big backing file", key=key)
+        f.close()
+        ctx.count("programs.files_read_by_c_reader")
+        ctx.count("programs.histories_replayed_by_c_writer")
+        ctx.count("big_ondisk_files")
+        case.nontrivial = True
+    finally:
+        sc.cleanup()
+
+
 def wl_cms(ctx, rng, case):
     import probables as P
 
@@ -501,6 +551,7 @@ PROP = Prop(
         Workload("stream", wl_stream, quick=300, thorough=100000),
         Workload("cuckoo", wl_cuckoo, quick=300, thorough=80000),
         Workload("header", wl_header, quick=12, thorough=1000),
+        Workload("ondisk_big", wl_ondisk_big, quick=2, thorough=16),
     ],
     assumptions=["the C reference (cref/ppref.c) was written from the documented layout, not from the library; built with clang -fsanitize=address,undefined -fno-sanitize-recover=all",
                  "geometries whose ceil/round argument is within 1e-9 of a breakpoint are not used (C and Python floating point may legitimately differ there)",
